@@ -32,8 +32,10 @@ def mk_endpoint(E, cls=SERVER, handlers=None, symbolic_queue=True):
     ctable = M.new_smap(E, 'cache')
     ctable.valfn = lambda E_, m, k: SOpaque('frame', 'partial[%s]' % z3.simplify(I(k)))
     cache.attrs['_frames_by_stream_id'] = ctable
+    # the endpoint may be in the middle of closing (close() sets the flag, then awaits its tasks): the per-stream contracts
+    # hold in that window too
     sock.attrs.update(_stream_control=sc, _frame_fragment_cache=cache, _honor_lease=False, _fragment_size_bytes=None,
-                      _handler=SOpaque('app-handler', 'request-handler'))
+                      _handler=SOpaque('app-handler', 'request-handler'), _is_closing=E.fresh_bool('endpoint-is-closing'))
     if symbolic_queue:
         sock.attrs['_send_queue'] = aio.new_symbolic_queue(E, E.lookup('rsocket/queue_peekable.py::QueuePeekable'), 'sendq')
     return sock, table, ctable
